@@ -18,6 +18,11 @@ def finish(ctx, prop, viol, known, other, runner, coverage, assumptions, level="
         props = kf.get("properties", [])
         p = prop if prop in props else (props[0] if props else prop)
         print("KNOWN-FINDING: property=%s %s %s (%d cases in this run)" % (p, fid, kf.get("what", ""), n))
+    if os.environ.get("VERIF_DUMP_KNOWN"):      # maintenance: which inputs does each listed finding explain in this run (for reading the tables)
+        from findings import case_key
+        with open(os.environ["VERIF_DUMP_KNOWN"], "a") as f:
+            for kf, r in known:
+                f.write(json.dumps({"finding": kf["id"], "key": case_key(r, byid.get(r.get("id"))), "obs": r.get("obs"), "psz": r.get("psz"), "tags": r.get("tags")}) + "\n")
     if other:
         agg = {}
         for r in other:
